@@ -299,3 +299,22 @@ m("C13", "backslash-not-escaped", "src/generator/utils.rs",
 m("C15", "alias-tie-in-hash-order", "src/rules/require/path_require_mode.rs",
   "                    std::cmp::Reverse(alias_name.to_string()),\n", "                    0,\n",
   "C15.convert|path->path|src/main.lua|pkg/m")
+m("C13", "number-precision-check-dropped", "src/generator/utils.rs",
+  "if formatted.parse::<f64>() == Ok(float) {", "if formatted.parse::<f64>().is_ok() {",
+  "C13.numbers-written|")
+m("C13", "negative-infinity-sign-lost", "src/generator/utils.rs",
+  "format!(\"({}1/0)\", if float.is_sign_negative() { \"-\" } else { \"\" })", "format!(\"({}1/0)\", if float.is_sign_positive() { \"-\" } else { \"\" })",
+  "C13.numbers-written|")
+m("C13", "hex-written-in-decimal-digits", "src/generator/utils.rs",
+  "                \"0{}{:x}{}\",", "                \"0{}{}{}\",",
+  "C13.numbers-written|")
+m("C13", "integral-floats-truncated", "src/generator/utils.rs",
+  "            } else if float.fract() == 0.0 {\n                format!(\"{}\", float)", "            } else if float.fract() == 0.0 {\n                format!(\"{}\", float as i64)",
+  "C13.numbers-written|")
+m("C13", "underscores-kept-in-exponent", "src/nodes/expressions/number.rs",
+  "                        .get(index + 1..)\n                        .map(filter_underscore)\n                        .and_then(|string| string.parse().ok())\n                        .ok_or(Self::Err::InvalidDecimalExponent)?;",
+  "                        .get(index + 1..)\n                        .and_then(|string| string.parse().ok())\n                        .ok_or(Self::Err::InvalidDecimalExponent)?;",
+  "C13.numbers-read|")
+m("C13", "binary-parsed-as-octal", "src/nodes/expressions/number.rs",
+  "let number = u64::from_str_radix(&filtered, 2)", "let number = u64::from_str_radix(&filtered, 8)",
+  "C13.numbers-read|")
